@@ -512,13 +512,34 @@ func genSplitLocks(r *rand.Rand) core.Case {
 			stat("split-locks-reached")
 		}
 	}
-	switch r.Intn(3) {
+	switch r.Intn(5) {
 	case 0:
 	case 1:
 		g.fireIf(X, cstypes.RoundStepPrevoteWait)
 		g.fireIf(Z, cstypes.RoundStepPrevoteWait)
-	default:
+	case 2:
 		g.randomPrefix(10 + r.Intn(40))
+	default:
+		// the releasing polka arrives late: everybody moves on to round 2 (X still without the faulty
+		// validator's round-1 prevote for b1), only then the polka of round 1 is completed at X; the
+		// faulty validator stays silent afterwards, so X must have unlocked for anything to reach +2/3
+		g.fireIf(X, cstypes.RoundStepPrevoteWait)
+		g.fireIf(Z, cstypes.RoundStepPrevoteWait)
+		g.byzVote("pc", 1, -1, byz)
+		for _, i := range []int{X, Y, Z} {
+			g.dlMatch(i, isVote("pc", 1))
+		}
+		for _, i := range []int{X, Y, Z} {
+			g.fireIf(i, cstypes.RoundStepPrecommitWait)
+		}
+		if g.nt.nodes[X].live() && g.round(X) == 2 && g.nt.nodes[X].node.RS().LockedRound == 0 {
+			stat("late-polka-pending-at-locked-node")
+		}
+		if r.Intn(2) == 0 {
+			g.dl(X, kB1)
+		}
+		g.syncSuffix(120, false)
+		return g.finish("split-locks-late-polka")
 	}
 	g.syncSuffix(90, r.Intn(2) == 0)
 	return g.finish("split-locks")
@@ -602,6 +623,127 @@ func genCommitNoBlock(r *rand.Rand) core.Case {
 	}
 	g.syncSuffix(90, len(faulty) > 0 && r.Intn(2) == 0)
 	return g.finish("commit-no-block")
+}
+
+// a node in the commit step (it has +2/3 precommits for block B, is collecting B's parts and never
+// saw the proposal) receives a validly signed proposal of its round for ANOTHER block before B's
+// parts: the proposer of round 0 is faulty and equivocates
+func genCommitForeignProposal(r *rand.Rand) core.Case {
+	w := getWorld([]int64{1, 1, 1, 1}, nil, 0)
+	p0 := w.proposers[0]
+	g := newGen(r, w, complement(4, []int{p0}))
+	D := r.Intn(3)
+	var others []int
+	for i := range g.nt.nodes {
+		g.fire(i)
+		if i != D {
+			others = append(others, i)
+		}
+	}
+	bB, bC := p0, 4+p0
+	g.do(fmt.Sprintf("byz prop r=0 b=%d pol=-1 by=%d", bB, p0))
+	kBlockB := len(g.nt.log)
+	g.do(fmt.Sprintf("byz block b=%d", bB))
+	kPropC := len(g.nt.log)
+	g.do(fmt.Sprintf("byz prop r=0 b=%d pol=-1 by=%d", bC, p0))
+	g.do(fmt.Sprintf("byz block b=%d", bC))
+	for _, i := range others {
+		g.dl(i, 0)
+		g.dl(i, kBlockB)
+	}
+	g.fireIf(D, cstypes.RoundStepPropose)
+	g.byzVote("pv", 0, bB, p0)
+	g.byzVote("pc", 0, bB, p0)
+	for i := range g.nt.nodes {
+		g.dlMatch(i, isVote("pv", 0))
+	}
+	// D learns the commit; the others only if the variant says so
+	g.dlMatch(D, isVote("pc", 0))
+	if g.nt.nodes[D].live() && g.nt.nodes[D].node.RS().Step == cstypes.RoundStepCommit && g.nt.nodes[D].node.RS().Proposal == nil {
+		stat("commit-step-without-proposal-reached")
+	}
+	// the other proposal reaches D before any part of B
+	g.dl(D, kPropC)
+	switch r.Intn(3) {
+	case 0:
+	case 1:
+		// ... and its block too
+		g.dl(D, kPropC+1)
+	default:
+		for _, i := range others {
+			g.dlMatch(i, isVote("pc", 0))
+		}
+	}
+	g.syncSuffix(60, r.Intn(3) == 0)
+	return g.finish("commit-foreign-proposal")
+}
+
+// a faulty validator equivocates on its round-0 precommit (block B to one correct node, nil to the
+// others): that node decides and leaves the height; the others move on to round 1 and can admit the
+// conflicting precommit for B only through the decider's majority claim for the PAST round 0
+func genEquivPrecommitPastClaim(r *rand.Rand) core.Case {
+	w := getWorld([]int64{1, 1, 1, 1}, nil, 0)
+	p0 := w.proposers[0]
+	byz := -1
+	for _, v := range r.Perm(4) {
+		if v != p0 {
+			byz = v
+			break
+		}
+	}
+	g := newGen(r, w, complement(4, []int{byz}))
+	perm := r.Perm(3)
+	Y, X, Z := perm[0], perm[1], perm[2] // Y decides; Z misses the polka and precommits nil
+	for i := range g.nt.nodes {
+		g.fire(i)
+	}
+	b := p0
+	for i := range g.nt.nodes {
+		g.dlMatch(i, func(m *msg) bool { return (m.kind == "prop" && m.r == 0) || (m.kind == "block" && m.b == b) })
+	}
+	kPV := g.byzVote("pv", 0, b, byz)
+	g.dl(X, kPV)
+	g.dl(Y, kPV)
+	correct := func(t string, rr int) func(*msg) bool {
+		return func(m *msg) bool { return m.kind == "vote" && m.t == t && m.r == rr && m.by != byz }
+	}
+	// X and Y see the polka; Z sees only two prevotes for b and the faulty validator's nil
+	g.dlMatch(X, correct("pv", 0))
+	g.dlMatch(Y, correct("pv", 0))
+	kPVn := g.byzVote("pv", 0, -1, byz)
+	g.dl(Z, kPVn)
+	zv := 0
+	g.dlMatch(Z, func(m *msg) bool {
+		if m.kind == "vote" && m.t == "pv" && m.r == 0 && m.by != byz && m.by != g.idx(Z) && zv < 1 {
+			zv++
+			return true
+		}
+		return false
+	})
+	g.fireIf(Z, cstypes.RoundStepPropose)
+	g.dlMatch(Z, func(m *msg) bool { return m.kind == "vote" && m.t == "pv" && m.r == 0 && m.by == g.idx(Z) })
+	g.fireIf(Z, cstypes.RoundStepPrevoteWait)
+	// precommits: block b from the faulty validator to Y only, nil to X and Z
+	kB := g.byzVote("pc", 0, b, byz)
+	kN := g.byzVote("pc", 0, -1, byz)
+	g.dl(Y, kB)
+	g.dl(X, kN)
+	g.dl(Z, kN)
+	for i := range g.nt.nodes {
+		g.dlMatch(i, correct("pc", 0))
+	}
+	if !g.nt.nodes[Y].live() && g.nt.nodes[X].live() && g.nt.nodes[Z].live() {
+		stat("one-decided-through-equivocated-precommit")
+	}
+	// the others leave round 0 behind
+	g.fireIf(X, cstypes.RoundStepPrecommitWait)
+	g.fireIf(Z, cstypes.RoundStepPrecommitWait)
+	if r.Intn(2) == 0 {
+		g.fireIf(X, cstypes.RoundStepPropose)
+		g.fireIf(Z, cstypes.RoundStepPropose)
+	}
+	g.syncSuffix(80, false)
+	return g.finish("equivocated-precommit-past-claim")
 }
 
 // skewed validator set (reached through validator updates): most of the power walks through the
